@@ -81,7 +81,8 @@ def run(c):
     out1 = os.path.join(c.scratch, "replay.ndjson"); out2 = os.path.join(c.scratch, "record.ndjson")
     c.run_driver(drv, ["replay", cp, out1])
     c.run_driver(drv, ["record", out2], timeout=1200)
-    events = read_ndjson(out1) + read_ndjson(out2)
+    ev1 = read_ndjson(out1)
+    events = ev1 + read_ndjson(out2) + c.second_pass(drv, ["replay", cp, os.path.join(c.scratch, "replayT.ndjson")], os.path.join(c.scratch, "replayT.ndjson"), ev1)
     # chunk events are heavy (thousands of evaluations each): interleave them over the shards
     heavy = [e for e in events if e.startswith(('{"op":"T2C"', '{"op":"T3C"', '{"op":"AMBRC"'))]
     hs = set(heavy); light = [e for e in events if e not in hs]
